@@ -11,6 +11,7 @@ package getoptions
 import (
 	"regexp"
 	"strings"
+	"unicode/utf8"
 )
 
 // 1: leading dashes
@@ -100,9 +101,11 @@ func isOption(s string, mode Mode, windows bool) ([]optionPair, bool) {
 			}
 			return opts, true
 		case SingleDash:
-			opts := []optionPair{{Option: string([]rune(match[2])[0])}}
-			if len(match[2]) > 1 || len(match[3]) > 0 {
-				args := string([]rune(match[2])[1:]) + match[3]
+			// The option is the first character, everything after it is the argument, byte for byte.
+			_, size := utf8.DecodeRuneInString(match[2])
+			opts := []optionPair{{Option: match[2][:size]}}
+			if len(match[2]) > size || len(match[3]) > 0 {
+				args := match[2][size:] + match[3]
 				opts[0].Args = []string{args}
 			}
 			return opts, true
